@@ -77,6 +77,7 @@ func init() {
 			out = append(out, Instance{Scenario: "c12_duringopen", Params: mustJSON(struct{}{}), Bound: b, Shards: 4, Note: "a started session never silently covers only part of the assignment: a stream ending while Open() still waits for another vBucket is re-opened or counted"})
 			out = append(out, Instance{Scenario: "c15_reopen_fault", Params: mustJSON(struct{}{}), Bound: 0, Note: "load failures at the start-up that ends a rebalance"})
 			out = append(out, Instance{Scenario: "c08_endincatchup", Params: mustJSON(struct{}{}), Bound: 0, Note: "a transient end while the stream catches up after a rollback is re-opened (or fatal after the bounded retries) - never a session that silently goes on without the vBucket"})
+			out = append(out, Instance{Scenario: "c15_finite_reopenfail", Params: mustJSON(struct{}{}), Bound: 0, Note: "finite mode: a vBucket in its re-open loop while the others reach their end bound - the run completes with it or fails, never without it"})
 			out = append(out, Instance{Scenario: "c15_slowfail", Params: mustJSON(struct{}{}), Bound: b, Shards: 4, Note: "the failing stream request is the last one to complete: every schedule within the bound"})
 			out = append(out, Instance{Scenario: "c02_sessions", Params: mustJSON(SessionsParams{ReadOnly: true, Flushed: true}), Bound: 0, Shards: 2, Note: "read-only metadata, second / third session of one process: a checkpoint that lies beyond the high seqno when the vBucket is (re-)assigned terminates the client - loads are fresh reads also for gained vBuckets"})
 			out = append(out, Instance{Scenario: "c12_reopenfail", Params: mustJSON(ReopenFailParams{Failures: 5}), Bound: 0, Note: "a vBucket that cannot be re-opened after the bounded retries terminates the client"})
@@ -450,6 +451,67 @@ func init() {
 				return nil
 			}
 			return []string{"neither terminated nor running: status " + r.Status.String() + "; blocked: " + strings.Join(r.Blocked, " | ")}
+		}}
+	}
+}
+
+// c15_finite_reopenfail: finite mode; vb1 ends transiently right behind its last item and its re-open is rejected 2 or 5
+// times while vb0 reaches its end bound. The run either completes with every event of vb1 delivered (the third
+// attempt succeeds) or terminates with an error after the bounded retries - it never "completes" while vb1 is
+// still in its re-open loop.
+func init() {
+	scenarios["c15_finite_reopenfail"] = func(raw json.RawMessage) *vrt.Scenario {
+		return &vrt.Scenario{Name: "c15_finite_reopenfail", FreeChoices: true, NoTimerAlt: true, MaxSteps: 400000, Main: func() {
+			resetGlobals()
+			fails := []int{2, 5}[vrt.Choose(2, true, "rejected-re-open-attempts")]
+			o := EnvOpts{Vbs: 2, CheckpointType: "manual", Mode: config.DcpModeFinite, WrapMeta: true}
+			c := NewCluster(&o)
+			for vb := uint16(0); vb < 2; vb++ {
+				c.Append(vb, marker(1, 3), symbolPacket("M", 1), symbolPacket("M", 2), symbolPacket("M", 3))
+			}
+			e := NewEnv(c, o)
+			e.Cons.AutoAck = true
+			// (the connection of vb1 breaks right behind its last item: a transient end at the end bound; the first
+			// answer in the script below is the one to the initial stream request)
+			c.Vb[1].FiniteEndErr = gocbcore.ErrSocketClosed
+			c.Vb[1].Opens = []gocbcore.SimOpen{{Kind: "ok"}}
+			for i := 0; i < fails; i++ {
+				c.Vb[1].Opens = append(c.Vb[1].Opens, gocbcore.SimOpen{Kind: "err", Err: gocbcore.ErrTemporaryFailure})
+			}
+			vrt.SetOutcome(fmt.Sprintf("fails=%d", fails))
+			e.Stream.Open()
+			vrt.Sleep(30 * time.Second)
+			vrt.Quiesce()
+			seen := map[uint64]bool{}
+			for _, d := range e.Cons.Events {
+				if d.Vb == 1 {
+					seen[d.Seq] = true
+				}
+			}
+			complete := seen[1] && seen[2] && seen[3]
+			if fails == 5 {
+				vrt.Failf("finite run: the re-open of vb1 was rejected five times and the client did not terminate with an error (stopped cleanly: %v, vb1 complete: %v)", vrt.Closed(e.StopCh), complete)
+				return
+			}
+			if !complete {
+				vrt.Failf("finite run: vb1 was re-opened at the third attempt, events delivered %v, want 1..3 (run ended: %v)", seen, vrt.Closed(e.StopCh))
+			}
+			if !vrt.Closed(e.StopCh) {
+				vrt.Failf("finite run: both vBuckets reached their end bound, the client did not stop")
+			}
+		}, Classify: func(r *vrt.Result) []string {
+			if strings.Contains(r.Outcome, "fails=5") && r.Status == vrt.StatusCrash {
+				r.Failures = nil
+				return nil
+			}
+			if r.Status != vrt.StatusOK {
+				m := "status " + r.Status.String()
+				if r.Crash != nil {
+					m += ": " + r.Crash.Value
+				}
+				return []string{m}
+			}
+			return nil
 		}}
 	}
 }
